@@ -279,3 +279,7 @@ func VerifStubEncode(data any) ([]byte, error) {
 var VerifDeposits = map[*byte]any{}
 
 func VerifDepositFor(data []byte, v any) { VerifDeposits[&data[0]] = v }
+
+func VerifArrayHeaderSizeFromBytes(data []byte, off int) (int, error) {
+	return cborArrayHeaderSizeFromBytes(data, off)
+}
